@@ -181,6 +181,57 @@ fn elias_fano(ctx: &mut Ctx, nmax: usize, umax: usize) {
     }
 }
 
+/// Larger sequences, both builders: with thousands of elements an excess proportional to n (a lower-bit
+/// count one too large costs up to half a bit per element) is no longer hidden by the additive constant.
+/// u = n 2^k y for every k and several y in [1, 2): the fractional parts of lg n and lg u in both orders.
+fn elias_fano_large(ctx: &mut Ctx, thorough: bool) {
+    let ns: &[usize] = if thorough { &[1000, 3000, 7000, 40_000, 100_000, 700_000] } else { &[1000, 7000, 100_000] };
+    for &n in ns {
+        for k in (0..=40u32).step_by(if thorough { 1 } else { 3 }) {
+            if !ctx.case(|| format!("EliasFano space, both builders, n={n} u = n 2^{k} y for 8 values of y")) {
+                continue;
+            }
+            ctx.nontrivial();
+            for y in [1.0f64, 1.05, 1.2, 1.42, 1.5, 1.75, 1.9, 1.999] {
+                let u = (n as f64 * (1u64 << k) as f64 * y) as usize;
+                for concurrent in [false, true] {
+                    ctx.sub_evaluations += 1;
+                    let val = |i: usize| (u as u128 * i as u128 / (n as u128 - 1)) as usize;
+                    let r = guard(|| {
+                        if concurrent {
+                            let b = EliasFanoConcurrentBuilder::new(n, u);
+                            for i in 0..n {
+                                // SAFETY: each index once, monotone values within u
+                                unsafe { b.set(i, val(i)) };
+                            }
+                            bits(&b.build())
+                        } else {
+                            let mut b = EliasFanoBuilder::new(n, u);
+                            for i in 0..n {
+                                b.push(val(i));
+                            }
+                            bits(&b.build())
+                        }
+                    });
+                    match r {
+                        Outcome::Panic(m) => ctx.violation("C11|EliasFanoBuilder|panic", format!("n={n} u={u} concurrent={concurrent}: {m}")),
+                        Outcome::Ret(tot) => {
+                            let lg = if u > n { (u as f64 / n as f64).log2().max(0.0) } else { 0.0 };
+                            let bound = (n as f64 * (2.0 + lg)).ceil() as usize + 1024 + 128;
+                            if tot > bound {
+                                ctx.violation(
+                                    if concurrent { "C11|EliasFanoConcurrentBuilder|space-bound-exceeded" } else { "C11|EliasFano|space-bound-exceeded" },
+                                    format!("n={n} u={u}: mem_size = {tot} bits > n(2 + max(0, lg(u/n))) + 1152 = {bound}"),
+                                );
+                            }
+                        }
+                    }
+                }
+            }
+        }
+    }
+}
+
 fn edge_arith<S: sux::utils::Sig, E: ShardEdge<S, 3>>(ctx: &mut Ctx, name: &str, sharded_default: bool, mwhc: bool, thorough: bool) {
     let mut ns: Vec<usize> = (0..=if thorough { 4_000_000 } else { 60_000 }).collect();
     let mut x = ns.len() as f64;
@@ -406,6 +457,7 @@ fn main() {
     rank_select(&mut ctx, &lens);
     vectors(&mut ctx);
     elias_fano(&mut ctx, 64, if t { 4096 } else { 600 });
+    elias_fano_large(&mut ctx, t);
     edge_arith::<[u64; 2], FuseLge3Shards>(&mut ctx, "FuseLge3Shards", true, false, t);
     edge_arith::<[u64; 2], FuseLge3FullSigs>(&mut ctx, "FuseLge3FullSigs", true, false, t);
     edge_arith::<[u64; 2], FuseLge3NoShards>(&mut ctx, "FuseLge3NoShards", false, false, t);
